@@ -5,7 +5,8 @@ runs the named checks against it and stores the confirmed ones under
 import json, os, re, shutil, subprocess, sys
 
 SRC = sys.argv[1] if len(sys.argv) > 1 else "/tmp/seeded"
-ENV = dict(os.environ, GOFLAGS="-mod=mod", GOPROXY="off", GOSUMDB="off", GOTOOLCHAIN="local")
+REPO = os.environ.get("SEED_REPO", "/repo")
+ENV = dict(os.environ, GOFLAGS="-mod=mod", GOPROXY="off", GOSUMDB="off", GOTOOLCHAIN="local", VERIF_REPO=REPO)
 PKG = {"C06": "sourceaddrs", "C07": "sourceaddrs", "C11": "sourceaddrs", "C08": "sourcebundle", "C09": "sourcebundle", "C10": "sourcebundle",
        "C12-mutant-b": "sourcebundle", "C13": "sourcebundle", "C14": "sourcebundle", "C17": "sourcebundle", "C18": "sourcebundle"}
 EXTRA = {"C02-mutant-a": ["C05"], "C02-mutant-b": ["C15"], "C03-mutant-a": ["C10"], "C08-mutant-b": ["C13"], "C08-mutant-a": ["C14"], "C09-mutant-a": ["C15", "C02"],
@@ -31,14 +32,14 @@ def sh(cmd, cwd=None, timeout=1800):
 
 def demo(pkgdir, d, race):
     if not os.path.exists(f"{d}/demo_test.go"): return 99
-    dst = f"/repo/{pkgdir}/zz_seeded_demo_test.go"
+    dst = f"{REPO}/{pkgdir}/zz_seeded_demo_test.go"
     shutil.copy(f"{d}/demo_test.go", dst)
-    rc, out = sh(f"go test {'-race ' if race else ''}-vet=off -count=1 -timeout 300s -run 'Demo|Seeded|C[0-9][0-9]' .", cwd=f"/repo/{pkgdir}", timeout=600)
+    rc, out = sh(f"go test {'-race ' if race else ''}-vet=off -count=1 -timeout 300s -run 'Demo|Seeded|C[0-9][0-9]' .", cwd=f"{REPO}/{pkgdir}", timeout=600)
     os.remove(dst)
     return rc
 
 def main():
-    head = sh("git rev-parse --short HEAD", cwd="/repo")[1].strip()
+    head = sh("git rev-parse --short HEAD", cwd=REPO)[1].strip()
     rows = []
     for prop in sorted(os.listdir(SRC)):
         if not re.fullmatch(r"C\d\d", prop): continue
@@ -47,21 +48,21 @@ def main():
             if not os.path.exists(f"{d}/patch.diff"): continue
             key = f"{prop}-{m}"
             patch = REBASED.get(key, f"{d}/patch.diff")
-            assert sh("git status --porcelain", cwd="/repo")[1].strip() == "", "repo not clean"
-            if sh(f"git apply --check {patch}", cwd="/repo")[0] != 0:
+            assert sh("git status --porcelain", cwd=REPO)[1].strip() == "", "repo not clean"
+            if sh(f"git apply --check {patch}", cwd=REPO)[0] != 0:
                 rows.append((key, "PATCH DOES NOT APPLY", {})); continue
             pkgdir = PKG.get(key, PKG.get(prop, "."))
             race = key in RACE_DEMO
             without = demo(pkgdir, d, race)
-            sh(f"git apply {patch}", cwd="/repo")
-            suite = sh("/verif/tools/repotest.sh")[0] == 0
+            sh(f"git apply {patch}", cwd=REPO)
+            suite = sh(f"/verif/tools/repotest.sh {REPO}")[0] == 0
             withp = demo(pkgdir, d, race)
             caught = {}
             for chk in [prop] + EXTRA.get(key, []):
                 rc, out = sh(f"/verif/check {chk} quick", cwd="/verif")
                 finds = sorted(set(re.findall(r'finding="([^"]*)"', out)))
                 caught[chk] = {"exit": rc, "findings": finds[:6]}
-            sh("git checkout -- . && git clean -fdq", cwd="/repo")
+            sh("git checkout -- . && git clean -fdq", cwd=REPO)
             ok = suite and without == 0 and withp != 0
             rows.append((key, "confirmed" if ok else f"NOT CONFIRMED suite={suite} demo_without={without} demo_with={withp}", caught))
             if ok:
